@@ -46,11 +46,26 @@ class Stream:
     """Marker for a readable binary stream with the given content.  `burst` > 0: the stream returns
     short reads (at most that many bytes per read call)."""
 
-    def __init__(self, data, burst=0):
+    def __init__(self, data, burst=0, osfile=False):
         self.data = data
         self.burst = burst
+        self.osfile = osfile    # a real buffered file object (it has a descriptor), handed over after a prefix was consumed
 
     def open(self):
+        if self.osfile:
+            # the caller has already read a header of 5 bytes through the buffered object, so its read-ahead buffer is ahead
+            # of the descriptor's offset: what is left to read -- and therefore the value -- is `data`
+            import os
+            import tempfile
+            fd, name = tempfile.mkstemp(prefix='verif-stream-')
+            try:
+                with os.fdopen(fd, 'wb') as w:
+                    w.write(b'HEAD:' + self.data)
+                f = open(name, 'rb')
+                assert f.read(5) == b'HEAD:'
+            finally:
+                os.unlink(name)
+            return f
         if self.burst:
             return _ShortReader(self.data, self.burst)
         return io.BytesIO(self.data)
